@@ -242,7 +242,7 @@ def replay_file(path):
 def do_replay(path):
   sigs = replay_file(path)
   rec = json.load(open(path))
-  if sigs and not sigs[0].startswith('mismatch:'):
+  if rec.get('signature') in sigs:
     print("REPRODUCED property=%s obligation=%s signatures=%s" % (rec['property'], rec['obligation'], sigs))
     return EXIT_VIOLATION
   print("NOT-REPRODUCED property=%s obligation=%s %s" % (rec['property'], rec['obligation'], sigs))
@@ -320,9 +320,12 @@ def run_property(prop, tier, seed=0, budget_s=None, jobs=None, only=None, slice_
   os.makedirs(os.path.join(VERIF, 'replays'), exist_ok=True)
   violations = []; spurious = []
   seen = set()
+  tries = {}
   for r, f in failures:
     key = (r['obl'], f['signature'])
     if key in seen: continue
+    tries[key] = tries.get(key, 0) + 1
+    if tries[key] > 3: continue              # at most 3 replay attempts per failure signature
     seen.add(key)
     o = obls[r['obl_index']]
     rec = dict(property=prop, obligation=o.name, case=_jsonable(o.cases[r['case_index']]), model=f['model'],
